@@ -50,6 +50,22 @@ impl Prop for C14 {
         // make sure there is a flush after some data, with files possibly still open
         let pos = ops.iter().rposition(|o| matches!(o, WOp::Append { .. } | WOp::Add { .. })).map(|p| p + 1).unwrap_or(ops.len());
         ops.insert(pos, WOp::Flush);
+        if big && rng.chance(1, 2) {
+            // production constants: solve the position of the last flush onto / next to a REAL block edge
+            // (compression: the block holds exactly 4 MiB, or 1 byte, when flush is called) or chunk edge (encryption only)
+            if let Some(fi) = ops.iter().rposition(|o| matches!(o, WOp::Flush)) {
+                let (m, r) = if cfg.comp() {
+                    cfg.level = cfg.level.min(5);
+                    (vc.block as usize, *rng.pick(&[0usize, 0, 1, vc.block as usize - 1]))
+                } else {
+                    (vc.chunk as usize, *rng.pick(&[0usize, 1, 15, 16, 17, vc.chunk as usize - 1]))
+                };
+                if cfg.comp() || cfg.enc() {
+                    let (head, _) = ops.split_at_mut(fi);
+                    align_stream(head, m, r);
+                }
+            }
+        }
         let mut case = Case::new("C14", cfg, ops);
         // the destination may also split and interrupt transfers while flushes happen
         if !big && rng.chance(1, 3) {
